@@ -243,30 +243,20 @@ theorem snd_nodup {α β} (hs : List (α × β)) (h1 : (hs.map (·.1)).Nodup)
     subst this
     exact h1.1 (List.mem_map.2 ⟨(p, y), hqy, rfl⟩)
 
-/-- searches that are globbed with the same (type, pattern) pair have the same string: the code
-    globs such a pair only ONCE, for the first of them, and the repaired filter
-    `re.match(glob2re(str(search)), …)` depends on the string of the search -/
-def SameStr (d : DCtx) (config : Option Str) (searches : List Sid) : Prop :=
-  ∀ a ∈ searches, ∀ b ∈ searches, a.type = b.type → patOf d config a = patOf d config b →
-    a.string = b.string
-
-/-- the invariant of the `searched` / `found` bookkeeping: every pair already globbed was globbed
-    for a search string `str` shared by all remaining searches with that pair, and every hit of it
-    has been yielded -/
-def SearchedInv (d : DCtx) (w : World) (config : Option Str) (searches : List Sid)
-    (searched : List (Str × Str)) (found : List Str) : Prop :=
-  ∀ tp ∈ searched, ∃ str : Str,
-    (∀ s' ∈ searches, s'.type = tp.1 → patOf d config s' = tp.2 → s'.string = str) ∧
-    ∀ p ∈ w.glob tp.2, ∀ x, d.ctx.sidOfPath p config = .ok x → x.typed = true →
-      x.type = tp.1 → Find.globMatch d.ctx.env str x.string = .ok true → p ∈ found
+/-- the invariant of the `searched` / `found` bookkeeping: every hit of a (type, pattern, search
+    string) triple already globbed has been yielded -/
+def SearchedInv (d : DCtx) (w : World) (config : Option Str)
+    (searched : List (Str × Str × Str)) (found : List Str) : Prop :=
+  ∀ tp ∈ searched, ∀ p ∈ w.glob tp.2.1, ∀ x, d.ctx.sidOfPath p config = .ok x → x.typed = true →
+    x.type = tp.1 → Find.globMatch d.ctx.env tp.2.2 x.string = .ok true → p ∈ found
 
 /-- EXACT characterisation of `pathsStarGo` at the level of (path, Sid) pairs -/
 theorem pathsStarGo_pairs (d : DCtx) (w : World) (config : Option Str)
     (htot : ∀ p ∈ w.nodes.map (·.1), ∀ e, d.ctx.sidOfPath p config = .error e → e = .spil)
     (searches : List Sid) (hsp : ∀ s ∈ searches, ∃ po, d.ctx.sidPath config s = .ok po)
-    (hgm : ∀ s ∈ searches, '[' ∉ s.string) (hstr : SameStr d config searches) :
-    ∀ (searched : List (Str × Str)) (found : List Str),
-      SearchedInv d w config searches searched found →
+    (hgm : ∀ s ∈ searches, '[' ∉ s.string) :
+    ∀ (searched : List (Str × Str × Str)) (found : List Str),
+      SearchedInv d w config searched found →
     ∃ hs : List (Str × Sid),
       d.pathsStarGo w config searches searched found = .ok (hs.map (·.2)) ∧
       (hs.map (·.1)).Nodup ∧
@@ -279,21 +269,15 @@ theorem pathsStarGo_pairs (d : DCtx) (w : World) (config : Option Str)
     have hsp' : ∀ s ∈ rest, ∃ po, d.ctx.sidPath config s = .ok po :=
       fun s hs => hsp s (List.mem_cons_of_mem _ hs)
     have hgm' : ∀ s ∈ rest, '[' ∉ s.string := fun s hs => hgm s (List.mem_cons_of_mem _ hs)
-    have hstr' : SameStr d config rest := fun a ha b hb =>
-      hstr a (List.mem_cons_of_mem _ ha) b (List.mem_cons_of_mem _ hb)
     obtain ⟨po, hpo⟩ := hsp s (by simp)
     have hpat : patOf d config s = po.getD ['N','o','n','e'] := by simp [patOf, hpo]
     rw [pathsStarGo_cons, hpo]
     simp only
     split
     · next hc =>
-      -- the pair was globbed before: nothing new
-      have hmem : (s.type, po.getD ['N','o','n','e']) ∈ searched := by simpa using hc
-      have hinv0 : SearchedInv d w config rest searched found := by
-        intro tp htp
-        obtain ⟨str, h1, h2⟩ := hinv tp htp
-        exact ⟨str, fun s' hs' => h1 s' (List.mem_cons_of_mem _ hs'), h2⟩
-      obtain ⟨hs, h1, h2, h3⟩ := ih hsp' hgm' hstr' searched found hinv0
+      -- the triple was globbed before: nothing new
+      have hmem : (s.type, po.getD ['N','o','n','e'], s.string) ∈ searched := by simpa using hc
+      obtain ⟨hs, h1, h2, h3⟩ := ih hsp' hgm' searched found hinv
       refine ⟨hs, h1, h2, fun p x => ?_⟩
       rw [h3]
       constructor
@@ -301,11 +285,7 @@ theorem pathsStarGo_pairs (d : DCtx) (w : World) (config : Option Str)
       · rintro ⟨s', hs', hg, hnf, hh⟩
         rcases List.mem_cons.1 hs' with rfl | hs'
         · rw [hpat] at hg
-          obtain ⟨str, g1, g2⟩ := hinv _ hmem
-          have hs'str : s'.string = str := g1 s' (by simp) rfl hpat
-          have hgm0 := hh.2.2.2
-          rw [hs'str] at hgm0
-          exact absurd (g2 p hg x hh.1 hh.2.1 hh.2.2.1 hgm0) hnf
+          exact absurd (hinv _ hmem p hg x hh.1 hh.2.1 hh.2.2.1 hh.2.2.2) hnf
         · exact ⟨s', hs', hg, hnf, hh⟩
     · have htot' : ∀ p ∈ w.glob (po.getD ['N','o','n','e']), ∀ e,
           d.ctx.sidOfPath p config = .error e → e = .spil := by
@@ -317,25 +297,19 @@ theorem pathsStarGo_pairs (d : DCtx) (w : World) (config : Option Str)
       rw [fold_eq_hits d config s _ htot' hgm0 [] found]
       simp only [List.nil_append]
       -- the invariant for the recursive call
-      have hinv' : SearchedInv d w config rest (searched ++ [(s.type, po.getD ['N','o','n','e'])])
+      have hinv' : SearchedInv d w config (searched ++ [(s.type, po.getD ['N','o','n','e'], s.string)])
           (found ++ (hits d config s (w.glob (po.getD ['N','o','n','e'])) found).map (·.1)) := by
-        intro tp htp
+        intro tp htp p hp x hx hxt hxty hxg
         rcases List.mem_append.1 htp with htp | htp
-        · obtain ⟨str, h1, h2⟩ := hinv tp htp
-          exact ⟨str, fun s' hs' => h1 s' (List.mem_cons_of_mem _ hs'),
-            fun p hp x hx hxt hxty hxg => List.mem_append_left _ (h2 p hp x hx hxt hxty hxg)⟩
+        · exact List.mem_append_left _ (hinv tp htp p hp x hx hxt hxty hxg)
         · simp only [List.mem_singleton] at htp
           subst htp
-          refine ⟨s.string, ?_, ?_⟩
-          · intro s' hs' hty hp'
-            exact hstr s' (List.mem_cons_of_mem _ hs') s (by simp) hty (by rw [hp', hpat])
-          · intro p hp x hx hxt hxty hxg
-            by_cases hpf : p ∈ found
-            · exact List.mem_append_left _ hpf
-            · apply List.mem_append_right
-              exact List.mem_map.2 ⟨(p, x),
-                (mem_hits d config s _ _ _ _).2 ⟨hp, hpf, hx, hxt, hxty, hxg⟩, rfl⟩
-      obtain ⟨hs, h1, h2, h3⟩ := ih hsp' hgm' hstr' _ _ hinv'
+          by_cases hpf : p ∈ found
+          · exact List.mem_append_left _ hpf
+          · apply List.mem_append_right
+            exact List.mem_map.2 ⟨(p, x),
+              (mem_hits d config s _ _ _ _).2 ⟨hp, hpf, hx, hxt, hxty, hxg⟩, rfl⟩
+      obtain ⟨hs, h1, h2, h3⟩ := ih hsp' hgm' _ _ hinv'
       rw [h1]
       refine ⟨hits d config s (w.glob (po.getD ['N','o','n','e'])) found ++ hs, by simp, ?_, ?_⟩
       · rw [List.map_append, List.nodup_append]
@@ -357,7 +331,8 @@ theorem pathsStarGo_pairs (d : DCtx) (w : World) (config : Option Str)
           rcases List.mem_cons.1 hs' with rfl | hs'
           · left; rw [hpat] at hg; exact ⟨hg, hnf, hh⟩
           · by_cases hpm : p ∈ (hits d config s (w.glob (po.getD ['N','o','n','e'])) found).map (·.1)
-            · left
+            · -- `p` was already yielded for `s` (and resolves to the same Sid)
+              left
               obtain ⟨⟨q, y⟩, hqy, hq⟩ := List.mem_map.1 hpm
               simp only at hq
               subst hq
